@@ -7,6 +7,22 @@ use std::cmp::Ordering;
 use std::io::Write;
 
 pub fn inputs_c01(r: &mut Rng, n: usize, _tier: &str, out: &mut dyn Write) {
+    // boundary block: the bounds (MAX is the only value with a full century in its nanoseconds field), zero and the
+    // century crossings, against whole numbers of centuries and single nanoseconds, both orders, + and -
+    // (a seeded change that left MAX - (k centuries, 0 ns) non-canonical was hit by one of 20 000 random cases)
+    let mut n = n;
+    if n >= 2000 {
+        let edge: [i128; 11] = [DMAX, DMAX - 1, DMIN, DMIN + 1, 0, 1, -1, NPC, -NPC, NPC - 1, -NPC + 1];
+        let other: [i128; 14] = [NPC, 2 * NPC, 100 * NPC, 32766 * NPC, 32767 * NPC, 32768 * NPC, -NPC, -2 * NPC, -32767 * NPC, -32768 * NPC, 1, -1, NPC - 1, -NPC + 1];
+        for a in edge {
+            for b in other {
+                writeln!(out, "add {} {}", dstr(a), dstr(b)).unwrap();
+                writeln!(out, "sub {} {}", dstr(a), dstr(b)).unwrap();
+                writeln!(out, "sub {} {}", dstr(b), dstr(a)).unwrap();
+                n -= 3;
+            }
+        }
+    }
     for _ in 0..n {
         let a = total(r);
         match r.below(16) {
